@@ -54,9 +54,17 @@ def key_of(identifier):
     """record key from an input identifier (path string, Path, DataMember): file name without the input suffix; in the
     subdirs layout (equal file names in different directories) the directory's letter is appended"""
     text = str(identifier)
-    name = os.path.basename(text)
-    key = name[: -len(IN_SUFFIX)] if name.endswith(IN_SUFFIX) else name
+    key = strip_suffix(os.path.basename(text))
     return key + GROUPS.get(os.path.basename(os.path.dirname(text)), "")
+
+
+def strip_suffix(name):
+    """the harness' own rule for an identifier: the file name with its trailing format suffix removed, or its trailing
+    format suffix + compression suffix (.txt.gz); nothing else of the name is touched"""
+    for sfx in (IN_SUFFIX + ".gz", IN_SUFFIX):
+        if name.endswith(sfx):
+            return name[: -len(sfx)]
+    return name
 
 
 # --- custom id_from_source functions for apply_to (each maps sources differently from get_unique_id) ------------------
@@ -67,8 +75,7 @@ def _src_text(x):
 
 
 def _stem(x):
-    name = os.path.basename(_src_text(x))
-    return name[: -len(IN_SUFFIX)] if name.endswith(IN_SUFFIX) else name
+    return strip_suffix(os.path.basename(_src_text(x)))
 
 
 def id_upper(x):
@@ -224,7 +231,15 @@ class c14_load(_Base):
         key = key_of(path)
 
         def ok():
-            text = path.read() if hasattr(path, "read") else open(str(path)).read()
+            if hasattr(path, "read"):
+                text = path.read()
+            elif str(path).endswith(".gz"):
+                import gzip
+
+                with gzip.open(str(path), "rt") as f:
+                    text = f.read()
+            else:
+                text = open(str(path)).read()
             data = json.loads(text)
             data["source"] = str(path)
             data["trail"] = ["c14_load"]
